@@ -208,3 +208,41 @@ def bssn_exact(ex):
                 s_Ricci_down3_phi=Rphi, s_Ricci_down3_bssnok=Rt,
                 s_RicciS_bssnok=np.einsum('ij...,ij...->...', gtu, Rt),
                 Adown3=Ad, Adown3_bssnok=np.exp(-4 * phi) * Ad)
+
+
+def evolved_fields(metric, t, X, Y, Z):
+    """The 3+1 / BSSNOK fields whose coordinate-time derivative aurel offers,
+    evaluated exactly at time t (used with dt_exact)."""
+    g, dg, _ = metric(t, X, Y, Z)
+    s = split31(g, dg)
+    gam, gamu = s["gamma"], s["gammaup"]
+    dgam = dg[1:, 1:, 1:]
+    nd = gam.ndim - 2
+    d3 = np.eye(3).reshape((3, 3) + (1,) * nd)
+    detg = det(gam)
+    phi = np.log(detg) / 12
+    dphi = np.einsum('ij...,kij...->k...', gamu, dgam) / 12
+    Gt = s["G3"] - 2 * (np.einsum('ki...,j...->kij...', d3, dphi)
+                        + np.einsum('kj...,i...->kij...', d3, dphi)
+                        - np.einsum('ij...,kl...,l...->kij...', gam, gamu,
+                                    dphi))
+    gtu = np.exp(4 * phi) * gamu
+    K = s["K"]
+    trK = s["Ktrace"]
+    Ad = K - gam * trK / 3
+    return dict(Ktrace=trK, phi=phi, gammaup=gamu,
+                gammadown3_bssnok=np.exp(-4 * phi) * gam,
+                Adown3_bssnok=np.exp(-4 * phi) * Ad,
+                s_Gamma_bssnok=np.einsum('jk...,ijk...->i...', gtu, Gt))
+
+
+def dt_fields(metric, t, X, Y, Z, h=2e-3):
+    keys = None
+    acc = {}
+    for c, k in zip(_C8, range(-4, 5)):
+        if c == 0:
+            continue
+        fl = evolved_fields(metric, t + k * h, X, Y, Z)
+        for kk, v in fl.items():
+            acc[kk] = acc.get(kk, 0) + c * v
+    return {kk: v / h for kk, v in acc.items()}
